@@ -5,6 +5,7 @@ import (
 	"fmt"
 	"net"
 	"sync"
+	"syscall"
 	"time"
 )
 
@@ -102,6 +103,40 @@ func (c *DNSCache) lookup(ctx context.Context, name string) (*dnsCacheEntry, boo
 }
 
 func (c *DNSCache) DialContext(ctx context.Context, network, address string) (net.Conn, error) {
+	return c.dialContext(ctx, &c.dialer, address)
+}
+
+// dialContextVia returns a DialContext function which resolves names through the
+// cache like DialContext does, but makes the connections with the given dialer.
+// The allow/deny lists the cache was created with keep applying, in addition to
+// whatever control function the given dialer has.
+func (c *DNSCache) dialContextVia(dialer *net.Dialer) func(ctx context.Context, network, address string) (net.Conn, error) {
+	chained := *dialer
+	chained.ControlContext = chainControls(c.dialer.ControlContext, dialer.ControlContext)
+	return func(ctx context.Context, network, address string) (net.Conn, error) {
+		return c.dialContext(ctx, &chained, address)
+	}
+}
+
+type controlFunc = func(ctx context.Context, network, address string, conn syscall.RawConn) error
+
+// chainControls returns a dialer control function which lets a connection
+// through only if every one of the given control functions does.
+func chainControls(controls ...controlFunc) controlFunc {
+	return func(ctx context.Context, network, address string, conn syscall.RawConn) error {
+		for _, control := range controls {
+			if control == nil {
+				continue
+			}
+			if err := control(ctx, network, address, conn); err != nil {
+				return err
+			}
+		}
+		return nil
+	}
+}
+
+func (c *DNSCache) dialContext(ctx context.Context, dialer *net.Dialer, address string) (net.Conn, error) {
 	// Split up the host and port from the give address.
 	host, port, err := net.SplitHostPort(address)
 	if err != nil {
@@ -125,7 +160,7 @@ retryLookup:
 	// Try each address in the cached entry. If we successfully connect
 	// to one of those addresses then return the conn and stop there.
 	for _, addr := range entry.addrs {
-		conn, err := c.dialer.DialContext(ctx, "tcp", addr.String()+":"+port)
+		conn, err := dialer.DialContext(ctx, "tcp", net.JoinHostPort(addr.String(), port))
 		if err != nil {
 			continue
 		}
